@@ -7,7 +7,7 @@ from ..harness import qcall
 
 ID = "C19"
 LEVEL = "exploration"
-BUDGET = {"quick": 640, "thorough": 10000}
+BUDGET = {"quick": 640, "thorough": 250000}
 TECHNIQUE = "property-based testing: constructed interior cell centres, stored value from the generator's payload as the oracle"
 RULE = ("Hypothesis-generated nested 3D plotfiles (non-zero origin, anisotropic cells, 1-3 levels, any layout, finite "
         "random payload |v| <= 1e3) x ~10 query points per plotfile constructed as centres of cells that belong to the "
